@@ -9,6 +9,8 @@ import (
 	"os"
 	"path/filepath"
 	"sort"
+	"strconv"
+	"strings"
 	"sync"
 
 	"github.com/feichai0017/NoKV/file"
@@ -419,12 +421,26 @@ func VerifyDir(cfg Config) error {
 }
 
 func extractFID(path string) uint64 {
-	var fid uint64
-	if _, err := fmt.Sscanf(filepath.Base(path), "%05d.vlog", &fid); err != nil {
-		_ = utils.Err(err)
+	fid, ok := parseSegmentName(filepath.Base(path))
+	if !ok {
+		_ = utils.Err(fmt.Errorf("value log: cannot parse segment name %q", filepath.Base(path)))
 		return 0
 	}
-	return fid
+	return uint64(fid)
+}
+
+// parseSegmentName reads the file id out of a segment's base name. Names are written with
+// %05d, which grows beyond five digits (100000.vlog), so the whole number is parsed.
+func parseSegmentName(base string) (uint32, bool) {
+	digits, ok := strings.CutSuffix(base, ".vlog")
+	if !ok || digits == "" {
+		return 0, false
+	}
+	fid, err := strconv.ParseUint(digits, 10, 32)
+	if err != nil {
+		return 0, false
+	}
+	return uint32(fid), true
 }
 
 func sanitizeValueLog(store *file.LogFile) (uint32, error) {
